@@ -76,7 +76,7 @@ CLAIMED = {
    note="The operating system's shared memory, cross-process visibility and /dev/shm are outside; given identical views of one buffer, behavioural equality is inherited from the kernels being functions of the arrays."),
  "C08": dict(engine=W, category="model_checking", design="6 C08",
    technique="CrossHair symbolic execution (z3) of the real helpers glue under a synchronous 'spawn' context with a symbolic item-to-worker assignment and pickled Process arguments",
-   text="Real _fill_queue, _worker, _merge_worker, parallel_merging, parallel_add: for 1..3 workers (4 thorough; parallel_merging alone 1..9) and every assignment of the items to workers (symbolic), symbolic callback returns, and all three sketch kinds together: every item reaches the callback exactly once, its adds land in the assigned worker's block, every worker's block of every kind is merged exactly once into the returned sketch (odd carry included), n_records is the sum of returns, one pill per worker. With the merge lemmas of C01/C02/C03/C04/C09 this gives the sequential result. The 'items may be a generator' clause is a recorded known finding (F2).",
+   text="Real _fill_queue, _worker, _merge_worker, parallel_merging, parallel_add: for 1..3 workers (4 thorough; parallel_merging alone 1..9) and every assignment of the items to workers (symbolic), symbolic callback returns, and all three sketch kinds together: every item reaches the callback exactly once, its adds land in the assigned worker's block, every worker's block of every kind is merged exactly once into the returned sketch (odd carry included), n_records is the sum of returns, one pill per worker. With the merge lemmas of C01/C02/C03/C04/C09 this gives the sequential result. The 'items may be a generator' clause is a recorded known finding (F2). The merge-kernel contracts the glue model relies on (cells merged per the kernel's law, bookkeeping summed, argument untouched; heavy-hitter histories with a merge) are discharged in this check too by symbolic execution of the Numba typed IR at small shapes.",
    note="Assumes mp.Queue's exactly-once delivery and that the fake context's scheduling covers the real one's observable orders; OS scheduling, real spawn and cross-process memory coherence are outside (the replays do run real spawned processes)."),
  "C19": dict(engine=W, category="model_checking", design="6 C19",
    technique="CrossHair symbolic execution (z3) of the real _worker loop and parallel_add monitor under the synchronous context with symbolic per-item failure flags and a symbolic exit code; symbolic per-worker delay before an exit status becomes observable; bounded work queue with a blocked-filler (hang) model",
